@@ -78,7 +78,7 @@ def real_run(case):
 
     adaptive_stepping.compute_error = fake_err
     try:
-        with torch.no_grad():
+        with torch.no_grad(), core.time_limit(30):
             ys, _ = solver.integrate(y0, ts, ())
     finally:
         adaptive_stepping.compute_error = saved
